@@ -99,3 +99,31 @@ Definition model_kept (w : world) : list string :=
   | Some last => if status_eqb (st last) SUninstalled then [] else map kept_label (uninstall_kept last)
   | None => []
   end.
+
+(* ---- upgrade: the revision whose manifest is the "original" of Client.update
+   (upgrade.go: the last revision when it is deployed, else the latest deployed one, else the
+   last revision when it is failed or superseded) ---- *)
+Definition upgrade_current (l : list release) : option release :=
+  match max_rev_of l with
+  | None => None
+  | Some last =>
+      if is_pending (st last) then None
+      else if status_eqb (st last) SDeployed then Some last
+      else match max_rev_of (filter (fun r => status_eqb (st r) SDeployed) l) with
+           | Some d => Some d
+           | None => if status_eqb (st last) SFailed || status_eqb (st last) SSuperseded
+                     then Some last else None
+           end
+  end.
+
+(* ---- rollback: the revision rolled back to (rollback.go: Version, or the one before the latest) ---- *)
+Definition rollback_target (fl : flags) (l : list release) : option (release * release) :=
+  match max_rev_of l with
+  | None => None
+  | Some cur =>
+      let prev := match f_version fl with 0 => rev cur - 1 | v => v end in
+      match find (fun r => Nat.eqb (rev r) prev) l with
+      | Some pr => Some (cur, pr)
+      | None => None
+      end
+  end.
